@@ -17,7 +17,7 @@ LEVEL_TEXT = (
 
 CHECKS = {
     "C02": dict(
-        rules="R02.1-R02.6, R02.8, R02.9",
+        rules="R02.1-R02.6, R02.8-R02.10",
         what="every accepting return of find_cache_meta/validate_meta is dominated by a rejecting gate for each required meta field (or its named bypass); SCC freshness is the conjunction of its three tests (truth-table evaluation); State.is_fresh conjuncts; cached errors of fresh modules are replayed; stored and compared values of each gate field come from the same producer; the indirect-dependency visitor reaches every type component; the fast path and the import-cycle path of transitive_dep_hash select and hash the same dependencies",
         quant="edit histories with a run after every edit, in four store x format configurations",
         technique="CFG must-pass-through with polarity, abstract (truth-table) evaluation of the freshness flag, producer cross-check, component-coverage matrix",
@@ -65,7 +65,7 @@ CHECKS = {
         design="DESIGN.md §4 C07",
     ),
     "C13": dict(
-        rules="R13.1-R13.5",
+        rules="R13.1-R13.7",
         what="blockers never reach the ignore logic; suppressed-by-ignore implies recorded-as-used, only for enabled codes, and nothing else records; decision order of is_error_code_enabled (explicit disable, explicit enable, parent disabled); who may append to the error map; exit status truth table over (message, non-note, blockers, install override) and its data-flow to sys.exit",
         quant="programs x ignore placements x code selections",
         technique="CFG must-pass / reachability, guard chains, who-may-call, abstract evaluation of the exit-status assignments",
@@ -113,8 +113,8 @@ CHECKS = {
         design="DESIGN.md §4 C11",
     ),
     "C20": dict(
-        rules="R20.1, R12.3, R20.2",
-        what="every loop that re-queues deferred work has a per-iteration counter compared with a constant bound that leaves the loop; type-checker deferral limited by pass_num < last_pass; partial arithmetic operators of the constant folders guarded against every failure precondition",
+        rules="R20.1, R20.3, R20.4, R12.3, R20.2",
+        what="every loop that re-queues deferred work has a per-iteration counter compared with a constant bound that leaves the loop; type-checker deferral limited by pass_num < last_pass; partial arithmetic operators of the constant folders guarded against every failure precondition; placeholder-triggered deferrals are conditional on not being in the final iteration (defer() asserts it); constant-valued index variables are range-checked against len() of the subscripted sequence",
         quant="input programs",
         technique="CFG cycle/must-pass queries for counter-bounded fix-points; guard-chain analysis of partial operators",
         note="Absence of crashes for all inputs is not decided; R20.2 is an inventory (evidence only).",
@@ -137,7 +137,7 @@ CHECKS = {
         design="DESIGN.md §4 C15",
     ),
     "C16": dict(
-        rules="R16.1-R16.5",
+        rules="R16.1-R16.6",
         what="exception containment of the serve loop by may-raise summaries; status-file removal on every CFG exit of serve; per-connection reset of IPCServer framing state; frame consumption order in frame_from_buffer and writer/reader header agreement; request keys are membership-tested, **data reaches a command only after signature binding, a rejected stop does not exit",
         quant="client behaviours and stream segmentations",
         technique="interprocedural may-raise summaries + CFG must-pass-through / pairing queries",
